@@ -45,6 +45,24 @@ def first(t):
     return t[0]
 
 
+class AObj:
+    def __init__(self, n, p):
+        self.n, self.p = n, p
+
+    def __eq__(self, other):
+        return isinstance(other, AObj) and (self.n, self.p) == (other.n, other.p)
+
+    def __hash__(self):
+        return hash((self.n, self.p))
+
+    def __repr__(self):
+        return f"AObj({self.n!r}, {self.p!r})"
+
+
+def attr_n(x):
+    return x.n
+
+
 def mod2(x):
     if not isinstance(x, int):
         raise TypeError("mod2 key function is defined on ints only")
@@ -84,6 +102,12 @@ class Universe:
             self.keyfn, self.targs = None, (str, int)
             self.wrong = []
             self.hashable = True
+        elif name == "attr":
+            # the everyday key function `lambda item: item.n`: raises AttributeError (not TypeError) on a bare key
+            self.specs = [(x, p) for x in self.keys for p in (0, 1)]
+            self.keyfn, self.targs = attr_n, (AObj, str)
+            self.wrong = [("wrong_item", AObj(5, 0))]
+            self.hashable = True
         elif name == "ulist":
             self.specs = [(x, p) for x in self.keys for p in (0, 1)]
             self.keyfn, self.targs = first, (list, str)
@@ -99,6 +123,8 @@ class Universe:
                 pool[s] = s[0]
             elif self.name == "mod2":
                 pool[s] = int(s[0][1]) + 2 * s[1]
+            elif self.name == "attr":
+                pool[s] = AObj(s[0], s[1])
             elif self.name == "spec":
                 pool[s] = _spec_classes()["SItem"](key=s[0], value=s[1])
             elif self.name == "ulist":
@@ -120,6 +146,8 @@ class Universe:
             return obj
         if self.name == "mod2":
             return "k%d" % (obj % 2)
+        if self.name == "attr":
+            return obj.n
         if self.name == "spec":
             return obj.key
         return obj[0]
@@ -158,6 +186,13 @@ class Canon:
         return ["obj", repr(o)[:80]]
 
 
+def _obs(f):
+    try:
+        return f()
+    except Exception as e:  # an observation that raises is an observation (and differs from the model's)
+        return "raises:" + type(e).__name__
+
+
 def observe_impl(s, u, canon, pool):
     out = {"len": len(s)}
     out["iter"] = sorted(canon.item(x) for x in s)
@@ -165,18 +200,20 @@ def observe_impl(s, u, canon, pool):
     out["items"] = sorted([repr(k), canon.item(v)] for k, v in s.items())
     per = {}
     for k in list(u.keys) + [u.missing_key]:
-        d = {"in": k in s}
+        d = {"in": _obs(lambda: k in s)}
         g = s.get(k)
         d["get"] = None if g is None else canon.item(g)
         try:
             d["getitem"] = canon.item(s[k])
-        except (KeyError, TypeError):  # a miss may surface as the user key function's TypeError on a non-item
+        except KeyError:
             d["getitem"] = "KeyError"
+        except Exception as e:
+            d["getitem"] = "raises:" + type(e).__name__
         per[repr(k)] = d
     out["per_key"] = per
     peri = {}
     for sp, obj in pool.items():
-        d = {"in": obj in s}
+        d = {"in": _obs(lambda: obj in s)}
         peri[repr(sp)] = d
     out["per_item"] = peri
     return out
@@ -380,7 +417,7 @@ def apply_model(m, op, u, pool):
         return m[k], m
     if name == "getitem_key":
         if op[1] not in m:
-            return ("raise", {"KeyError", "TypeError"} if u.name == "mod2" else {"KeyError"}), None  # (a partial user key function may raise on the non-item)
+            return ("raise", {"KeyError"}), None  # (also when a partial user key function raises on the non-item)
         return m[op[1]], m
     if name == "get":
         return m.get(op[1]), m
@@ -679,7 +716,7 @@ def explore(shard):
     return C.rec
 
 
-UNIVERSES = ["self", "tuple", "spec", "ulist", "mod2", "selfmismatch"]
+UNIVERSES = ["self", "tuple", "spec", "ulist", "mod2", "selfmismatch", "attr"]
 
 
 def main(run):
